@@ -38,10 +38,12 @@ def build_real(inp):
     for i in range(N):
         if inp["alive"][i]:
             g.add_node(i + 1, **{T: inp["t"][i], TID: inp["tid"][i], LID: inp["lid"][i], CUS: inp["cus"][i]})
+    so = {int(k): v for k, v in (inp.get("succ_order") or {}).items()}
     for i in range(N):
-        for j in range(N):
-            if inp["adj"][i][j]:
-                g.add_edge(i + 1, j + 1)
+        kids = [j + 1 for j in range(N) if inp["adj"][i][j]]
+        first = [c for c in so.get(i + 1, []) if c in kids]
+        for c in first + [c for c in kids if c not in first]:  # adjacency (= iteration) order as in the model
+            g.add_edge(i + 1, c)
     scale = None if inp.get("scale") is None else [_num(s) for s in inp["scale"]]
     tr = SolutionTracks(g, segmentation=seg, ndim=len(shape), time_attr=T, tracklet_attr=TID, lineage_attr=LID,
                         scale=scale)
